@@ -517,6 +517,34 @@ func (c *simCluster) convergedOn(fresh int) bool {
 	return true
 }
 
+// stuckWhy: diagnosis of a cluster that did not converge (used to tell a recorded finding from a new one)
+func (c *simCluster) stuckWhy() string {
+	// a running node whose latest, still uncommitted configuration no longer lists it as voter may not campaign, yet the
+	// voters of the older configuration cannot win without its vote because its log is ahead of theirs
+	for _, id := range c.ids {
+		x := c.nodes[id]
+		if !x.up || x.r.configs.Latest.isVoter(id) || x.r.configs.IsCommitted() {
+			continue
+		}
+		ahead := true
+		others := 0
+		for _, jd := range c.ids {
+			y := c.nodes[jd]
+			if jd == id || !y.up || !y.r.configs.Latest.isVoter(jd) {
+				continue
+			}
+			others++
+			if y.r.lastLogTerm > x.r.lastLogTerm || (y.r.lastLogTerm == x.r.lastLogTerm && y.r.lastLogIndex >= x.r.lastLogIndex) {
+				ahead = false
+			}
+		}
+		if ahead && others > 0 {
+			return "uncommittedSelfRemoval"
+		}
+	}
+	return "unknown"
+}
+
 // stepFairCheck: the verdict of a fair, fault-free continuation (C17): judged on the state the steps produced
 func (c *simCluster) stepFairCheck(s simStep) map[string]interface{} {
 	fresh := 0
@@ -528,7 +556,11 @@ func (c *simCluster) stepFairCheck(s simStep) map[string]interface{} {
 			fresh = int(x)
 		}
 	}
-	return map[string]interface{}{"kind": "fairCheck", "fresh": fresh, "rounds": s.Arg["rounds"], "converged": c.convergedOn(fresh)}
+	ev := map[string]interface{}{"kind": "fairCheck", "fresh": fresh, "rounds": s.Arg["rounds"], "converged": c.convergedOn(fresh)}
+	if ev["converged"] == false {
+		ev["why"] = c.stuckWhy()
+	}
+	return ev
 }
 
 // finish: every running node is shut down (stateLoop returns: roles released, pending tasks answered with
